@@ -255,6 +255,9 @@ func (in *Interp) chanSend(th *Thread, c ChanV, v Value) {
 	in.hbRelease(th, it)
 	ch.items = append(ch.items, it)
 	th.pendingSend = it
+	if w := ch.freeWaiter(); w != nil {
+		w.claimed = true
+	}
 	panic(blockSignal{why: "send (unbuffered) waiting for receiver", cond: func() bool { return it.taken || ch.Closed }})
 }
 
@@ -303,10 +306,11 @@ func (in *Interp) chanRecv(th *Thread, c ChanV, commaOk bool, ct types.Type) (Va
 		}
 		return z, false
 	}
-	ch.recvWaiting++
+	w := &chanWaiter{chans: []*ChanObj{ch}}
+	w.park()
 	panic(blockSignal{why: fmt.Sprintf("receive on empty channel #%d", ch.ID), cond: func() bool {
 		if ch.live() > 0 || ch.Closed {
-			ch.recvWaiting--
+			w.leave()
 			return true
 		}
 		return false
@@ -333,7 +337,7 @@ func (in *Interp) selectOp(th *Thread, fr *Frame, ins *ssa.Select) {
 		}
 		all = append(all, x)
 		if x.send {
-			if c.C.Closed || (c.C.Cap > 0 && c.C.live() < c.C.Cap) || (c.C.Cap == 0 && c.C.recvWaiting > 0 && c.C.live() == 0) {
+			if c.C.Closed || (c.C.Cap > 0 && c.C.live() < c.C.Cap) || (c.C.Cap == 0 && c.C.freeWaiter() != nil && c.C.live() == 0) {
 				ready = append(ready, x)
 			}
 		} else {
@@ -362,16 +366,18 @@ func (in *Interp) selectOp(th *Thread, fr *Frame, ins *ssa.Select) {
 		}
 		// blocking select with nothing ready
 		chans := all
+		w := &chanWaiter{}
 		for _, x := range chans {
 			if !x.send {
-				x.ch.recvWaiting++
+				w.chans = append(w.chans, x.ch)
 			}
 		}
+		w.park()
 		panic(blockSignal{why: "select with no ready case", cond: func() bool {
 			ok := false
 			for _, x := range chans {
 				if x.send {
-					if x.ch.Closed || (x.ch.Cap > 0 && x.ch.live() < x.ch.Cap) || (x.ch.Cap == 0 && x.ch.recvWaiting > 0 && x.ch.live() == 0) {
+					if x.ch.Closed || (x.ch.Cap > 0 && x.ch.live() < x.ch.Cap) || (x.ch.Cap == 0 && x.ch.freeWaiter() != nil && x.ch.live() == 0) {
 						ok = true
 					}
 				} else if x.ch.live() > 0 || x.ch.Closed {
@@ -379,11 +385,7 @@ func (in *Interp) selectOp(th *Thread, fr *Frame, ins *ssa.Select) {
 				}
 			}
 			if ok {
-				for _, x := range chans {
-					if !x.send {
-						x.ch.recvWaiting--
-					}
-				}
+				w.leave()
 			}
 			return ok
 		}})
@@ -400,6 +402,12 @@ func (in *Interp) selectOp(th *Thread, fr *Frame, ins *ssa.Select) {
 		it := &chanItem{v: copyVal(x.v)}
 		in.hbRelease(th, it)
 		x.ch.items = append(x.ch.items, it)
+		if x.ch.Cap == 0 {
+			// rendezvous: the parked receiver this send counts on is committed to it
+			if w := x.ch.freeWaiter(); w != nil {
+				w.claimed = true
+			}
+		}
 		result(x.idx, false, nil)
 	} else {
 		if v, ok := x.ch.take(); ok {
